@@ -369,7 +369,7 @@ class Translator:
             if mm is not None:
                 return mm
             return sp.Piecewise((A(1), A(0)), (A(2), True))
-        if fn in ("float", "double", "float64", "asarray", "array", "real") and args:
+        if fn in ("float", "double", "float64", "asarray", "array", "real", "ascontiguousarray", "asanyarray", "asfortranarray") and args:
             return A(0) if fn != "real" else sp.Function("real")(A(0))
         if fn == "int" and args:
             return sp.Function("int")(A(0))
